@@ -43,8 +43,8 @@ PROPS["C01"] = {
     "level_text": "generated arrival histories (wrap, loss, duplicates, reordering, drop patterns, long runs) checked against a reference model written from the statement; finds counterexamples, never proves absence",
     "units": [
         plain("regress", "packetmap", "TestVerif_C01_Regress_.*"),
-        rapid("packetmap-model", "packetmap", "TestVerif_C01_PacketmapModel", 1500, 12000),
-        rapid("write-composition", "rtpconn", "TestVerif_C01_WriteComposition", 600, 5000),
+        rapid("packetmap-model", "packetmap", "TestVerif_C01_PacketmapModel", 1500, 40000),
+        rapid("write-composition", "rtpconn", "TestVerif_C01_WriteComposition", 600, 15000),
     ],
     "assumptions": [
         "arrivals stay within 8000 packets of the head (strictly inside the 8192 re-sync window the property quantifies over)",
@@ -55,9 +55,9 @@ PROPS["C01"] = {
 PROPS["C02"] = {
     "units": [
         plain("regress", "rtpconn", "TestVerif_C02_Regress_.*"),
-        rapid("write-composition", "rtpconn", "TestVerif_C02_WriteComposition", 800, 6000),
-        rapid("rewrite-diff", "rtpconn", "TestVerif_C02_RewriteDiff", 8000, 60000),
-        rapid("concurrent-receivers", "rtpconn", "TestVerif_C02_ConcurrentReceivers", 400, 3000),
+        rapid("write-composition", "rtpconn", "TestVerif_C02_WriteComposition", 800, 30000),
+        rapid("rewrite-diff", "rtpconn", "TestVerif_C02_RewriteDiff", 8000, 200000),
+        rapid("concurrent-receivers", "rtpconn", "TestVerif_C02_ConcurrentReceivers", 400, 10000),
     ],
     "assumptions": ["source packets carry no RTP header extension (the receive loop strips them before caching)",
                     "picture-id continuity is asserted on in-order histories only, as the statement quantifies"],
@@ -66,8 +66,8 @@ PROPS["C02"] = {
 PROPS["C03"] = {
     "units": [
         plain("regress", "packetmap", "TestVerif_C01_Regress_.*"),
-        rapid("reverse-model", "packetmap", "TestVerif_C03_ReverseModel", 1200, 10000),
-        rapid("nack-composition", "rtpconn", "TestVerif_C03_NackComposition", 800, 6000),
+        rapid("reverse-model", "packetmap", "TestVerif_C03_ReverseModel", 1200, 40000),
+        rapid("nack-composition", "rtpconn", "TestVerif_C03_NackComposition", 800, 20000),
     ],
     "assumptions": ["sequential interleavings of Write and gotNACK only"],
 }
@@ -75,8 +75,8 @@ PROPS["C03"] = {
 PROPS["C04"] = {
     "units": [
         plain("regress", "packetmap", "TestVerif_C04_Regress_.*"),
-        rapid("layer-machine", "rtpconn", "TestVerif_C04_LayerMachine", 2000, 15000),
-        rapid("requested-tracks", "rtpconn", "TestVerif_C04_RequestedTracks", 3000, 20000),
+        rapid("layer-machine", "rtpconn", "TestVerif_C04_LayerMachine", 2000, 80000),
+        rapid("requested-tracks", "rtpconn", "TestVerif_C04_RequestedTracks", 3000, 80000),
     ],
     "technique": "stateful property testing (rapid): invariants over consecutive layer snapshots of a real down track under generated packet/feedback events",
     "assumptions": ["event-granularity interleavings only: lost updates inside Write vs a concurrent adjustLayer are not explored",
@@ -96,8 +96,8 @@ PROPS["C05"] = {
 PROPS["C06"] = {
     "units": [
         plain("regress", "packetcache", "TestVerif_C06_Regress_.*"),
-        rapid("bitmap-stats-model", "packetcache", "TestVerif_C06_BitmapStatsModel", 4000, 30000),
-        rapid("tobitmap", "packetcache", "TestVerif_C06_ToBitmap", 4000, 30000),
+        rapid("bitmap-stats-model", "packetcache", "TestVerif_C06_BitmapStatsModel", 4000, 100000),
+        rapid("tobitmap", "packetcache", "TestVerif_C06_ToBitmap", 4000, 100000),
         rapid("readloop-nacks", "rtpconn", "TestVerif_C06_ReadLoopNacks", 150, 1000),
         rapid("multi-track-reports", "rtpconn", "TestVerif_C06_MultiTrackReports", 300, 3000),
         rapid("nack-relay", "rtpconn", "TestVerif_C06_NackRelay", 160, 1200, shards=8, quick_shards=8),
@@ -162,8 +162,8 @@ PROPS["C08"] = {
 
 PROPS["C09"] = {
     "units": [
-        rapid("stateful-scope", "token", "TestVerif_C09_StatefulScope", 3000, 20000),
-        rapid("signed-tokens", "token", "TestVerif_C09_SignedTokens", 2500, 15000),
+        rapid("stateful-scope", "token", "TestVerif_C09_StatefulScope", 3000, 50000),
+        rapid("signed-tokens", "token", "TestVerif_C09_SignedTokens", 2500, 40000),
         rapid("match-agreement", "token", "TestVerif_C09_MatchAgreement", 8000, 60000),
         rapid("token-login-username", "group", "TestVerif_C09_TokenLoginUsername", 1500, 10000),
         rapid("token-join-machine", "rtpconn", "TestVerif_C09_TokenJoinMachine", 300, 2500, quick_shards=4),
@@ -208,7 +208,7 @@ PROPS["C19"] = {
         rapid("confinement", "webserver", "TestVerif_C19_Confinement", 1500, 12000, quick_shards=4),
         rapid("admitted-usernames", "group", "TestVerif_C19_AdmittedUsernames", 3000, 30000),
         rapid("description-store", "group", "TestVerif_C19_DescriptionStore", 3000, 30000),
-        rapid("group-registry", "group", "TestVerif_C19_GroupRegistry", 1500, 12000),
+        rapid("group-registry", "group", "TestVerif_C19_GroupRegistry", 1500, 20000),
     ],
     "technique": "property-based testing (rapid): reference predicate for the validators; hostile usernames through every login route (password, wildcard, stateful and signed tokens) into AddClient; hostile request targets over raw TCP against the real server with sentinel files outside the roots",
     "assumptions": ["Linux path semantics (filepath.Separator == '/')", "symlinks placed inside the roots by the operator are not a client-supplied name"],
@@ -231,7 +231,7 @@ PROPS["C18"] = {
 
 PROPS["C16"] = {
     "units": [
-        rapid("store-model", "token", "TestVerif_C16_StoreModel", 800, 6000),
+        rapid("store-model", "token", "TestVerif_C16_StoreModel", 800, 12000),
         rapid("racing-editors", "token", "TestVerif_C16_RacingEditors", 100, 800),
         rapid("api-token-sequences", "webserver", "TestVerif_C16_ApiTokenSequences", 200, 1500, shards=8, quick_shards=4),
         crash("crash-points", "token", "token", 4, 50),
@@ -245,8 +245,8 @@ PROPS["C16"] = {
 PROPS["C20"] = {
     "units": [
         plain("regress", "diskwriter", "TestVerif_C20_Regress_.*"),
-        rapid("recording", "diskwriter", "TestVerif_C20_Recording", 1500, 8000),
-        rapid("staggered-sender-reports", "diskwriter", "TestVerif_C20_StaggeredSenderReports", 160, 800, quick_shards=8),
+        rapid("recording", "diskwriter", "TestVerif_C20_Recording", 1500, 30000),
+        rapid("staggered-sender-reports", "diskwriter", "TestVerif_C20_StaggeredSenderReports", 160, 1500, quick_shards=8),
     ],
     "technique": "model-based property testing (rapid): recordings parsed back with an EBML reader and compared with the frames a model publisher sent",
     "assumptions": ["diskwriter is driven through the public conn interfaces with a fake publisher; the packet cache behind it is the real one",
@@ -257,9 +257,9 @@ PROPS["C13"] = {
     "units": [
         plain("regress", "rtpconn", "TestVerif_C13_Regress_.*"),
         plain("shutdown-kicks", "rtpconn", "TestVerif_C13_ShutdownKicksEveryone", timeout={"quick": 120, "thorough": 120}),
-        rapid("action-queue", "unbounded", "TestVerif_C13_ActionQueue", 400, 3000, race=True, shards=8),
+        rapid("action-queue", "unbounded", "TestVerif_C13_ActionQueue", 400, 10000, race=True, shards=8),
         rapid("coordinated-schedules", "rtpconn", "TestVerif_C13_CoordinatedSchedules", 60, 400, shards=8, timeout={"quick": 900, "thorough": 3600}),
-        rapid("free-running", "rtpconn", "TestVerif_C13_FreeRunning", 150, 1000, race=True, shards=8, race_scope=["/group/", "/unbounded/"]),
+        rapid("free-running", "rtpconn", "TestVerif_C13_FreeRunning", 150, 5000, race=True, shards=8, race_scope=["/group/", "/unbounded/"]),
     ],
     "technique": "property-based testing (rapid) of generated concurrent plans under the race detector + forced schedules with fake clients as pause points (structural deadlock witness)",
     "assumptions": ["interleavings inside a function without callback are reached only by free-running repetition",
